@@ -358,7 +358,9 @@ fn logger_of(c: &Cfg, dir: &Path, link: &Path) -> Result<(Box<dyn log::Log>, fle
     if c.rot_first {
         l = rotate(l, c.rot);
     }
-    let mut l = l.log_to_file(file_spec(c, dir)).format_for_files(raw_format);
+    // (a second writer behind the MultiWriter - one that swallows everything - must not change what the file writer does)
+    let l = if (v >> 6) & 1 == 0 { l.log_to_file(file_spec(c, dir)) } else { l.log_to_file_and_writer(file_spec(c, dir), Box::new(crate::lg::Sink)) };
+    let mut l = l.format_for_files(raw_format);
     l = match (c.append, (v >> 3) & 1) {
         (true, 0) => l.append(),
         (a, _) => l.o_append(a),
